@@ -107,7 +107,6 @@ func (tw *tfWorld) fire(c Commit, prev map[string]Snap) {
 	}
 }
 
-
 func (tw *tfWorld) transformBody(in *A, outRes *B) error {
 	tw.transformCalls++
 	n := tw.transformCalls
